@@ -4,7 +4,7 @@
    the statements about <P>_COMBINATOR / serialize_<p>_w / deserialize_<p>_w below are
    obligations about the code as it is now. *)
 From Coq Require Import ZArith List Ascii Bool Lia Sorting.Permutation.
-From Cspuz Require Import Lib.PyErr Codec.Comb Codec.CombWf Codec.CombRoundTrip Codec.Legacy Codec.LegacyProofs Codec.Url
+From Cspuz Require Import Lib.PyErr Codec.Comb Codec.CombWf Codec.CombRoundTrip Codec.Legacy Codec.LegacyProofs Codec.LegacyEq Codec.Pzpr Codec.PzprProofs Codec.Url
   Codec.UrlProofs Codec.Yajilin Codec.Puzzles Codec.SerChars Codec.PuzzleProofs Gen.Codecs.
 Import ListNotations.
 Local Open Scope Z_scope.
@@ -74,7 +74,7 @@ Theorem url_from_body_roundtrip :
     wrappers_consistent sw dw -> 0 <= h -> 0 <= w ->
     cust_good (cu_env cu h w) -> nl_free (sw_comb sw) = true ->
     serialize_problem_cu cu (sw_comb sw) pb h w = Ok body ->
-    deserialize_problem_cu cu (sw_comb sw) body h w = Ok (Some pb') ->
+    deserialize_problem_cu cu (sw_comb sw) body h w = Ok (Some pb') -> pb' <> VNone ->
     run_ser_sized cu sw h w pb = Ok (make_url default_prefix (sw_puzzle sw) h w body) /\
     run_de cu dw (make_url default_prefix (sw_puzzle sw) h w body) = Ok (Some (sized dw h w pb')).
 Proof. exact url_level_roundtrip_nl. Qed.
@@ -169,8 +169,7 @@ Print Assumptions heyawake_roundtrip_given_rooms.
    then follows from url_from_body_roundtrip (wrappers consistent, no newline: proved above). *)
 Definition yajilin_cell_ok (v : pv) : Prop :=
   v = VStr s_dotdot \/ v = VStr s_qq \/
-  exists c n, dir_code c = Ok (ord c - ord c + match dir_code c with Ok d => d | Err _ => 0 end) /\ 0 <= n <= 4095 /\
-              (exists d, dir_code c = Ok d) /\ v = VStr (c :: py_str_int n).
+  exists c d n, dir_code c = Ok d /\ 0 <= n <= 4095 /\ v = VStr (c :: py_str_int n).
 
 Definition yajilin_body_roundtrip_statement : Prop :=
   forall h w pb rows, 1 <= h -> 1 <= w -> grid_shape h w pb rows -> Forall (Forall yajilin_cell_ok) rows ->
@@ -206,3 +205,80 @@ Proof.
     + simpl. repeat split; lia.
   - vm_compute. reflexivity.
 Qed.
+
+(* ------------------------------------------------------------------ legacy encoder = combinator codec *)
+(* For every empty-cell value e and every h x w board of ints whose cells are e or in
+   0..4095: util.encode_array(board, empty=e) (dimension inferred, marker "g") and
+   serialize_problem(Grid(OneOf(Spaces(e, "g"), HexInt())), board) return the same text;
+   likewise for a flat list against Seq(OneOf(Spaces(e, "g"), HexInt()), n). *)
+Theorem legacy_eq_combinator :
+  forall e h w rows,
+    Z.of_nat (length rows) = h -> Forall (fun r => Z.of_nat (length r) = w) rows ->
+    Forall (Forall (icell_ok e)) rows -> rows <> [] ->
+    exists text,
+      encode_array (int_rows rows) marker_g (VInt e) None = Ok text /\
+      serialize_problem (Grid (OneOf [Spaces (VInt e) "g"%char; HexInt]) None) (VList (int_rows rows)) h w = Ok text.
+Proof.
+  intros e h w rows Hh Hw Hall Hne. exists (enc_ints e (concat rows) 0).
+  exact (legacy_eq_grid e h w rows Hh Hw Hall Hne).
+Qed.
+Print Assumptions legacy_eq_combinator.
+
+Theorem legacy_eq_combinator_flat :
+  forall e env l, Forall (icell_ok e) l ->
+    exists text,
+      encode_array (map VInt l) marker_g (VInt e) (Some 1) = Ok text /\
+      ser env (Seq (OneOf [Spaces (VInt e) "g"%char; HexInt]) (Z.of_nat (length l))) (VList [VList (map VInt l)]) 0
+        = Ok (Some (1%nat, text)).
+Proof. intros e env l H. exists (enc_ints e l 0). exact (legacy_eq_seq e env l H). Qed.
+Print Assumptions legacy_eq_combinator_flat.
+
+(* the term of legacy_eq_combinator with e = 0 is the one sudoku.py uses today *)
+Theorem sudoku_term_is_legacy_form : SUDOKU_COMBINATOR = Grid (OneOf [Spaces (VInt 0) "g"%char; HexInt]) None.
+Proof. reflexivity. Qed.
+Print Assumptions sudoku_term_is_legacy_form.
+
+(* ------------------------------------------------------------------ border bitmaps *)
+(* util.encode_grid_segmentation codes each of its two flag sequences with convert_binary_seq;
+   Rooms codes its two border grids with Seq(MultiDigit(base=2, digits=5), n).  On every
+   sequence of 0/1 flags (any length, the last group zero-padded) both give the same text. *)
+Theorem segmentation_bitmap_eq :
+  forall env F, Forall bit F ->
+    exists text,
+      convert_binary_seq (length F) F = Ok text /\
+      ser env (Seq (MultiDigit 2 5) (Z.of_nat (length F))) (VList [VList (map VInt F)]) 0 = Ok (Some (1%nat, text)).
+Proof. intros env F H. exists (cbs (length F) F). exact (bitmap_text_eq env F H). Qed.
+Print Assumptions segmentation_bitmap_eq.
+
+(* the whole-function form (flags computed from the same room ids on both sides) is not proved;
+   it is searched on every run (kind legacy-eq:lits/norinori/heyawake/aquarium, star_battle) *)
+Definition zcell (c : cell) : Z * Z := (Z.of_nat (fst c), Z.of_nat (snd c)).
+Definition segmentation_eq_rooms_statement : Prop :=
+  forall h w rs bid, 1 <= h -> 1 <= w -> valid_rooms h w rs ->
+    blocks_to_block_id h w (map (map zcell) rs) = Ok bid ->
+    exists text, encode_grid_segmentation h w bid = Ok text /\
+                 serialize_problem (Rooms false false) (rooms_to_pv rs) h w = Ok text.
+
+(* ------------------------------------------------------------------ agreement with the independent pzpr decoder *)
+(* sudoku (and any use of util.encode_array(empty=0)): for every h x w board (h, w >= 1) with
+   cells in 0..4095 (0 = empty), the body serialize_sudoku writes is read back by the
+   independent pzpr decoder (decodeNumber16, Codec/Pzpr.v) as exactly that board, the whole
+   body being consumed.  The other formats (4-cell, circle, arrow-number, borders, room
+   numbers, ex-cells) agree with their independent decoders on every run of the search only. *)
+Theorem sudoku_pzpr_agrees :
+  forall rows w, rows <> [] -> (0 < w)%nat ->
+    Forall (fun r => length r = w) rows -> Forall (Forall scell_ok) rows ->
+    exists body,
+      serialize_problem SUDOKU_COMBINATOR (VList (int_rows rows)) (Z.of_nat (length rows)) (Z.of_nat w) = Ok body /\
+      encode_array (int_rows rows) marker_g (VInt 0) None = Ok body /\
+      pzpr_decode_sudoku (length rows) w body = Some (VList (int_rows rows)).
+Proof.
+  intros rows w Hne Hw Hrect Hall. exists (enc_ints 0 (concat rows) 0).
+  assert (Hall' : Forall (Forall (icell_ok 0)) rows).
+  { eapply Forall_impl; [|exact Hall]. intros r Hr. eapply Forall_impl; [|exact Hr]. intros v Hv. right. exact Hv. }
+  assert (Hrect' : Forall (fun r => Z.of_nat (length r) = Z.of_nat w) rows).
+  { eapply Forall_impl; [|exact Hrect]. intros r Hr. simpl in Hr. rewrite Hr. reflexivity. }
+  destruct (legacy_eq_grid 0 (Z.of_nat (length rows)) (Z.of_nat w) rows eq_refl Hrect' Hall' Hne) as [H1 H2].
+  split; [exact H2|]. split; [exact H1|]. apply pzpr_sudoku_reads; assumption.
+Qed.
+Print Assumptions sudoku_pzpr_agrees.
